@@ -290,7 +290,13 @@ func (m *Machine) visitInstr(fr *frame, instr ssa.Instruction) continuation {
 		fr.set(instr, m.newMap(instr.Type().Underlying().(*types.Map).Key()))
 
 	case *ssa.Range:
-		fr.set(instr, m.rangeIter(fr.get(instr.X)))
+		if sm, ok := fr.get(instr.X).(*symMap); ok {
+			// iteration order is explored only for ranges in the code under
+			// test, not in harness helpers
+			fr.set(instr, m.rangeMapIn(sm, m.OrderMode && !m.isHarnessPkg(fr.fn)))
+		} else {
+			fr.set(instr, m.rangeIter(fr.get(instr.X)))
+		}
 
 	case *ssa.Next:
 		fr.set(instr, fr.get(instr.Iter).(iter).next(m))
